@@ -19,8 +19,8 @@ var rtSamples atomic.Int32
 var routeNames = []string{"body-bytes", "wire-preparse", "body-stream"}
 
 func runRoundTrips(r *mon.Run, tmp string) {
-	n := r.N(2000, 100_000)
-	nBig := r.N(3, 90)
+	n := r.N(2000, 40_000)
+	nBig := r.N(3, 45)
 	one := func(i int, big bool) {
 		if !r.Want(i) {
 			return
